@@ -15,7 +15,7 @@ Regs2 == 0..3
 Live == {0, 1}                        \* the registers the model uses
 S(op, d, a, b, bits, rot, k, ld, plb, pld, pplb, c) ==
   [op |-> op, d |-> d, a |-> a, b |-> b, bits |-> bits, rot |-> rot, k |-> k, ld |-> ld, plb |-> plb, vec |-> 0,
-   pld |-> pld, pplb |-> pplb, pmag |-> 0, cst |-> 0, c |-> c]
+   pld |-> pld, pplb |-> pplb, pmag |-> 0, cst |-> 0, c |-> c, pb |-> B]
 IsOkM(r) == regs[r].st = "ok"
 AllocM(r) == regs[r].st # "none"
 Apply(s) == regs' = [regs EXCEPT ![s.d] = Outcome(regs, s).reg]
